@@ -40,3 +40,4 @@ INVARIANTS
   C15_ExportReplay
   C19_Canonical
   C19_LeafOrderTotal
+  C09_RetryDurable
